@@ -92,6 +92,17 @@ CLAIMED['C19'] = dict(
          'Known finding: split duplicates the minor-loss coefficient.',
     ref='DESIGN.md section 4, C19')
 
+CLAIMED['C06'] = dict(
+    engine='symx+ctrlplane',
+    technique='symbolic execution of the real update_tank_heads / Tank.get_volume on symbolic pre-states and of the real run_sim loop (Newton solve stubbed, tank inflow forked from a signed set, symbolic initial level and limits); all feasible paths incl. partial steps at the limits explored; SMT (z3 LRA with floor) decides integration, limits, no discharge at min / no fill at max',
+    text='Unit: for an arbitrary pre-state, new head = previous head + q dt / A (cylinder, symbolic diameter) and V(new) - V(old) = q dt through a volume curve; get_volume equals the geometric / curve volume. '
+         'System: on a tank with a link ending in / starting at it (and an extra check-valve pipe), for ALL initial levels and level limits and every inflow sequence from the listed sets over <= 2 hydraulic steps: '
+         'first record is init_level; between consecutive records the level change times the area equals reported net inflow times elapsed time; levels stay within [min, max] up to 2 s of the largest flow; '
+         'a tank at/below min never reports discharge and one at/above max never reports filling.',
+    note='Trusted: z3; contract H for the stubbed solve (closed link carries no flow; the neighbour head keeps the gradient of the flow that led to a closure); rounded comparisons assume the two sides are equal or >= 1e-10 apart; '
+         'limit-crossing instants are not exact integer seconds; tank area concrete (50 m2).',
+    ref='DESIGN.md section 4, C06')
+
 NOT_APPLICABLE = {
     'C03': 'compares the numerical output of the closed EPANET shared library with a compiled Newton/SuperLU iteration; neither can be executed '
            'symbolically with the tools on this image and a contract standing in for EPANET would be the property itself (DESIGN.md section 5)',
